@@ -101,6 +101,25 @@ theorem stepF_ok (w : Writer) (c : Call) (f : Fault) (h : (w.step L ck c).2.leng
     simp only [Writer.stepF, Writer.commitF, Writer.step] at h ⊢
     rw [if_pos h]
 
+/-- a failing `append_at`: what was issued, and that neither the control record nor the slot
+choice changed -/
+theorem appendAtF_fail (w : Writer) (b : Bytes) (f : Fault) (h : ¬ (w.appendAt L b).2.2.length ≤ f.idx) :
+    (w.appendAtF L b f).2.1 = cutOps (w.appendAt L b).2.2 f ∧ (w.appendAtF L b f).2.2 = false ∧
+    (w.appendAtF L b f).1.root = w.root ∧ (w.appendAtF L b f).1.nextRoot = w.nextRoot := by
+  unfold Writer.appendAtF
+  simp only [if_neg h]
+  split
+  · exact ⟨rfl, rfl, rfl, rfl⟩
+  · exact ⟨rfl, rfl, ensure_root L w _, ensure_next L w _⟩
+
+theorem winv_congr {w w' : Writer} {d : Disk} {done : Option Root} {D : Nat} {recs : List Rec}
+    (h : WInv L ck w d done D recs) (hr : w'.root = w.root) (hn : w'.nextRoot = w.nextRoot) :
+    WInv L ck w' d done D recs := by
+  refine ⟨?_, ?_, ?_⟩
+  · rw [hr, hn]; exact h.q
+  · rw [hr]; exact h.nonneg
+  · rw [hr]; exact h.fs
+
 /-- **one call with an early fault (or none) keeps the invariant**, with the committed root
 unchanged unless the call is a commit that returned `Ok` -/
 theorem stepF_inv_partial (hL : L.OK) {w : Writer} {d : Disk} {done : Option Root} {D : Nat}
@@ -129,18 +148,14 @@ theorem stepF_inv_partial (hL : L.OK) {w : Writer} {d : Disk} {done : Option Roo
   · have hlt : f.idx < (w.step L ck c).2.length := Nat.lt_of_not_le hok
     cases c with
     | append b refs =>
-      simp only [Writer.step] at hlt
+      have hok' : ¬ (w.appendAt L b).2.2.length ≤ f.idx := hok
+      obtain ⟨e1, e2, e3, e4⟩ := appendAtF_fail (L := L) w b f hok'
       have hops : ∀ o ∈ cutOps (w.appendAt L b).2.2 f, DataOp L w.root.free.toNat o :=
         cutOps_data _ f (appendAt_dataOps L w b h.fs)
       obtain ⟨D', q'⟩ := Quiet.execAll_data hL _ d D h.q hops
       unfold doneAfterF
-      simp only [Writer.stepF, Writer.appendAtF, if_neg hok, Writer.step]
-      split
-      · exact ⟨D', recs, ⟨by simpa using q', h.nonneg, h.fs⟩, fun r hr => hr⟩
-      · refine ⟨D', recs, ⟨?_, ?_, ?_⟩, fun r hr => hr⟩
-        · simp only [if_false, ensure_next, ensure_root]; simpa using q'
-        · simp only [ensure_root]; exact h.nonneg
-        · simp only [ensure_root]; exact h.fs
+      simp only [Writer.stepF, e1, e2]
+      exact ⟨D', recs, winv_congr ⟨q', h.nonneg, h.fs⟩ e3 e4, fun r hr => hr⟩
     | commit heads refs fact =>
       simp only [Writer.step] at hlt hok
       have hidx : f.idx ≤ (w.appendAt L heads).2.2.length := by
@@ -156,13 +171,9 @@ theorem stepF_inv_partial (hL : L.OK) {w : Writer} {d : Disk} {done : Option Roo
         have hops : ∀ o ∈ cutOps (w.appendAt L heads).2.2 f, DataOp L w.root.free.toNat o :=
           cutOps_data _ f (appendAt_dataOps L w heads h.fs)
         obtain ⟨D', q'⟩ := Quiet.execAll_data hL _ d D h.q hops
-        simp only [if_pos hin, hcut, Writer.appendAtF, if_neg (Nat.not_le_of_lt hin)]
-        split
-        · exact ⟨D', recs, ⟨by simpa using q', h.nonneg, h.fs⟩, fun r hr => hr⟩
-        · refine ⟨D', recs, ⟨?_, ?_, ?_⟩, fun r hr => hr⟩
-          · simp only [if_false, ensure_next, ensure_root]; simpa using q'
-          · simp only [ensure_root]; exact h.nonneg
-          · simp only [ensure_root]; exact h.fs
+        obtain ⟨_, _, e3, e4⟩ := appendAtF_fail (L := L) w heads f (Nat.not_le_of_lt hin)
+        simp only [if_pos hin, hcut]
+        exact ⟨D', recs, winv_congr ⟨q', h.nonneg, h.fs⟩ e3 e4, fun r hr => hr⟩
       · -- failure of the data barrier: the head set was appended completely
         have heq : f.idx = (w.appendAt L heads).2.2.length := by omega
         have hcut : cutOps (w.commit L ck heads fact).2 f = (w.appendAt L heads).2.2 ++ [Op.failed] := by
@@ -186,10 +197,10 @@ theorem stepF_safe_fail_partial (hL : L.OK) {w : Writer} {d : Disk} {done : Opti
   have key : ∀ o ∈ (w.stepF L ck c f).2.1, DataOp L w.root.free.toNat o := by
     cases c with
     | append b refs =>
-      simp only [Writer.step] at hnle
-      simp only [Writer.stepF, Writer.appendAtF, if_neg hnle]
-      have := cutOps_data (L := L) _ f (appendAt_dataOps L w b h.fs)
-      split <;> exact this
+      have hok' : ¬ (w.appendAt L b).2.2.length ≤ f.idx := hnle
+      obtain ⟨e1, _, _, _⟩ := appendAtF_fail (L := L) w b f hok'
+      simp only [Writer.stepF, e1]
+      exact cutOps_data (L := L) _ f (appendAt_dataOps L w b h.fs)
     | commit heads refs fact =>
       simp only [Writer.step] at hnle
       have hidx : f.idx ≤ (w.appendAt L heads).2.2.length := by
@@ -210,5 +221,103 @@ theorem stepF_safe_fail_partial (hL : L.OK) {w : Writer} {d : Disk} {done : Opti
     (fun o ho => key o (List.mem_of_mem_take ho))
   have := (q'.safe hL none [] (fun _ h => by cases h) χ).1
   simpa using this
+
+/-! ## runs with faults -/
+
+/-- every fault of the run is outside the root writes -/
+def EarlyRun (L : Layout) (ck : Checksum) : Writer → List (Call × Fault) → Prop
+  | _, [] => True
+  | w, (c, f) :: cs => f.Early L ck w c ∧ EarlyRun L ck (w.stepF L ck c f).1 cs
+
+/-- `ChecksumOK` and `Bounded` for every call, at the state it is made in -/
+def HypsF (L : Layout) (ck : Checksum) : Writer → Disk → List (Call × Fault) → Prop
+  | _, _, [] => True
+  | w, d, (c, f) :: cs => ChecksumOK L ck w d [c] ∧ Bounded L ck w [c] ∧
+      HypsF L ck (w.stepF L ck c f).1 (d.execAll (w.stepF L ck c f).2.1) cs
+
+/-- root of the last commit that returned `Ok` with all its I/O calls among the first `n` -/
+def doneFromF (L : Layout) (ck : Checksum) (w : Writer) (done : Option Root) :
+    List (Call × Fault) → Nat → Option Root
+  | [], _ => done
+  | (c, f) :: cs, n =>
+    if n < (w.stepF L ck c f).2.1.length then done
+    else doneFromF L ck (w.stepF L ck c f).1 (doneAfterF L ck w c f done) cs
+      (n - (w.stepF L ck c f).2.1.length)
+
+/-- root of the (non-failing) commit whose root write is in flight after `n` I/O calls -/
+def progFromF (L : Layout) (ck : Checksum) (w : Writer) : List (Call × Fault) → Nat → Option Root
+  | [], _ => none
+  | (c, f) :: cs, n =>
+    if n < (w.stepF L ck c f).2.1.length then
+      (if (w.stepF L ck c f).2.2 then progFrom L ck w [c] n else none)
+    else progFromF L ck (w.stepF L ck c f).1 cs (n - (w.stepF L ck c f).2.1.length)
+
+/-- **recover_cases with injected I/O errors (partial: no fault inside a root write).**  For every
+run with faults, crash point and fault choice `χ`: `open` fails only if no commit has returned
+`Ok`; otherwise it returns the root of the last commit that returned `Ok`, or of the commit in
+progress.  In particular a failed call never damages the committed state and a commit that
+reported success is never lost. -/
+theorem run_safeF_partial (hL : L.OK) :
+    ∀ (cs : List (Call × Fault)) (w : Writer) (d : Disk) (done : Option Root) (D : Nat) (recs : List Rec),
+      WInv L ck w d done D recs → EarlyRun L ck w cs → HypsF L ck w d cs →
+      ∀ (n : Nat) (χ : List (List Bool)),
+        match Writer.open L ck ((d.execAll ((traceF L ck w cs).take n)).crash χ) with
+        | none => doneFromF L ck w done cs n = none
+        | some w' => some w'.root = doneFromF L ck w done cs n ∨ some w'.root = progFromF L ck w cs n := by
+  intro cs
+  induction cs with
+  | nil =>
+    intro w d done D recs h _ _ n χ
+    simp only [traceF, List.take_nil, Disk.execAll, doneFromF, progFromF]
+    have := (h.q.safe hL none [] (fun _ h => by cases h) χ).1.1
+    exact this
+  | cons cf cs ih =>
+    obtain ⟨c, f⟩ := cf
+    intro w d done D recs h he hh n χ
+    by_cases hn : n < (w.stepF L ck c f).2.1.length
+    · have htake : (traceF L ck w ((c, f) :: cs)).take n = (w.stepF L ck c f).2.1.take n := by
+        simp only [traceF]; exact List.take_append_of_le_length (Nat.le_of_lt hn)
+      simp only [htake, doneFromF, progFromF, hn, if_true]
+      by_cases hok : (w.step L ck c).2.length ≤ f.idx
+      · have e := stepF_ok (L := L) (ck := ck) w c f hok
+        rw [e] at hn ⊢
+        simp only [if_true]
+        have hs := (run_safe hL [c] w d done D recs h hh.1 hh.2.1 n χ).1.1
+        have ht : (trace L ck w [c]).take n = (w.step L ck c).2.take n := by
+          simp only [trace, List.append_nil]
+        have hd : doneFrom L ck w done [c] n = done := by
+          simp only [doneFrom]; rw [if_pos hn]
+        rw [ht, hd] at hs
+        exact hs
+      · have hfail : f.idx < (w.step L ck c).2.length := Nat.lt_of_not_le hok
+        have hs := (stepF_safe_fail_partial hL h c f he.1 hfail n χ).1
+        have hb : (w.stepF L ck c f).2.2 = false := by
+          cases c with
+          | append b refs => exact (appendAtF_fail (L := L) w b f hok).2.1
+          | commit heads refs fact =>
+            simp only [Writer.step] at hok
+            simp only [Writer.stepF, Writer.commitF, if_neg hok]
+            split
+            · rfl
+            · split <;> rfl
+        rw [hb]
+        simp only [Bool.false_eq_true, if_false]
+        cases ho : Writer.open L ck ((d.execAll ((w.stepF L ck c f).2.1.take n)).crash χ) with
+        | none => rw [ho] at hs; exact hs
+        | some w' =>
+          rw [ho] at hs
+          rcases hs with hs | hs
+          · exact Or.inl hs
+          · cases hs
+    · have hge : (w.stepF L ck c f).2.1.length ≤ n := Nat.le_of_not_lt hn
+      have htake : (traceF L ck w ((c, f) :: cs)).take n =
+          (w.stepF L ck c f).2.1 ++
+            (traceF L ck (w.stepF L ck c f).1 cs).take (n - (w.stepF L ck c f).2.1.length) := by
+        simp only [traceF]
+        rw [List.take_append, List.take_of_length_le hge]
+      obtain ⟨D', recs', hinv, _⟩ := stepF_inv_partial hL h c f he.1 hh.2.1
+      have := ih _ _ _ D' recs' hinv he.2 hh.2.2 (n - (w.stepF L ck c f).2.1.length) χ
+      simp only [htake, execAll_append, doneFromF, progFromF, hn, if_false]
+      exact this
 
 end AranyaV.Disk
